@@ -103,6 +103,7 @@ func (a *TunnelActor) Act(e *Env) {
 	}
 	ctx := e.Ctx()
 	tk := e.App().TunnelKeeper
+	a.Params = tk.GetParams(ctx)
 	count := tk.GetTunnelCount(ctx)
 	u := a.Users[e.Ch.Intn("tunnel.user", len(a.Users))]
 	kind := e.Ch.Weighted("tunnel.kind", []int{15, 20, 15, 15, 8, 10, 17})
@@ -180,6 +181,7 @@ func (a *TunnelActor) Act(e *Env) {
 }
 
 func (a *TunnelActor) create(e *Env, u *world.Account) {
+	a.Params = e.App().TunnelKeeper.GetParams(e.Ctx())
 	n := 1 + e.Ch.Intn("tunnel.create.nsig", int(a.Params.MaxSignals))
 	if e.Ch.Bool("tunnel.create.toomany", 40) {
 		n = int(a.Params.MaxSignals) + 1
@@ -217,4 +219,32 @@ func (a *TunnelActor) create(e *Env, u *world.Account) {
 	}
 	a.created++
 	e.Submit(u, "tunnel_create", &tunnelMeta{Kind: "create", Actor: u, Amount: dep, Create: msg, IsTSS: isTSS, Aim: aim}, msg)
+}
+
+// TunnelParamChurn lets governance change the minimum deposit (amounts and set of denoms) and the base packet fee mid-run.
+type TunnelParamChurn struct {
+	Rate int
+}
+
+func (p *TunnelParamChurn) OnBlock(e *Env, blk *world.BlockRecord) {}
+func (p *TunnelParamChurn) Act(e *Env) {
+	if e.Draining || e.Step < 6 || !e.Ch.Bool("tunnel.churn", p.Rate) {
+		return
+	}
+	gov := getGov(e)
+	if gov == nil {
+		return
+	}
+	np := e.App().TunnelKeeper.GetParams(e.Ctx())
+	switch e.Ch.Intn("tunnel.churn.what", 2) {
+	case 0:
+		np.MinDeposit = []sdk.Coins{sdk.NewCoins(sdk.NewInt64Coin("uband", 1000)), sdk.NewCoins(sdk.NewInt64Coin("uband", 500), sdk.NewInt64Coin("uusd", 200)),
+			sdk.NewCoins(sdk.NewInt64Coin("uusd", 50)), sdk.NewCoins(sdk.NewInt64Coin("uband", 2000))}[e.Ch.Intn("tunnel.churn.mindep", 4)]
+	case 1:
+		np.BasePacketFee = []sdk.Coins{sdk.NewCoins(sdk.NewInt64Coin("uband", 10)), sdk.NewCoins(), sdk.NewCoins(sdk.NewInt64Coin("uband", 3), sdk.NewInt64Coin("uusd", 2)), sdk.NewCoins(sdk.NewInt64Coin("uband", 40))}[e.Ch.Intn("tunnel.churn.fee", 4)]
+	}
+	if np.Validate() == nil {
+		gov.Propose(e, "params_tunnel", nil, &tunneltypes.MsgUpdateParams{Authority: govAuthority, Params: np})
+		e.St.Fault("tunnel_params_changed_by_governance")
+	}
 }
